@@ -73,6 +73,11 @@ def single_result_shapes():
     mk("loop_one_item_fails_few_slots", [Step("loop", "foreach", sub=sub4, items=Expr(In("items")), parallelism=1)],
        {"success": {"d": Expr(Ref("loop", "outputs", "success", "data"))}, "failed": {"e": Expr(Ref("loop", "failed", "error"))}},
        inp={"tag": "T1", "items": [{"tag": "i%d" % k} for k in range(4)]}, scripts_extra={"sub4_w0": {"exec_by_tag": {"i2": {"outcome": "crash"}}}})
+    # a loop whose items are constants (it is handed its items while it announces the end of its enabling stage) and whose item
+    # runs take a while, with no other step in the workflow
+    sub5 = gen.sub_program("sub5.yaml", 1)
+    mk("loop_constant_items_slow_sub", [Step("loop", "foreach", sub=sub5, items=[{"tag": "k0"}, {"tag": "k1"}], parallelism=1)],
+       {"success": {"d": Expr(Ref("loop", "outputs", "success", "data"))}}, scripts_extra={"sub5_w0": {"deploys": [{}, {"delay_ms": 70}]}})
     mk("no_output_possible", [gen.plugin_step("a", Expr(In("tag"))), gen.plugin_step("b", gen.tagref("a"))],
        {"success": {"b": gen.tagref("b")}}, outcome={"a": "error"})
     return out
